@@ -1449,6 +1449,10 @@ class MSgate(Channel):
     def __init__(self, r, phi=0.0, r_anc=10.0, eta_anc=1.0, avg=True):
         super().__init__([r, phi, r_anc, eta_anc, avg])
 
+    def merge(self, other):
+        # the first parameter is a squeezing magnitude, not a multiplicative transmission
+        raise MergeFailure("Measurement-based squeezing gates cannot be merged.")
+
     def _apply(self, reg, backend, **kwargs):
         r, phi, r_anc, eta_anc, avg = par_evaluate(self.p)
         if avg:
